@@ -59,15 +59,38 @@ def run(ctx, rep):
         out = storage_bits(be.call_fn(nw, [BV.inp("v", WIDTHS[w])]))
         ok = out is not None and all(out.bit(j) == (("in", "v", j) if j < info["bpp"] else 0) for j in range(WIDTHS[w]))
         rep.check(ok, "O0", rn + "::new", "%s::new must keep exactly the low %d bits; got %r" % (rn, info["bpp"], out), at=nw.span, fn=nw.path)
-    callers = set()
-    for f in prog.fns.values():
-        if not f.body:
+    # new_unmasked skips the masking: every value handed to it must be masked already.  RawU24::load assembles its value
+    # from exactly three bytes (audited by name); any other call site is decided in the bit domain: the argument, as a
+    # function of the caller's parameters, has no bit at or above the type's width
+    from mirq.origin import Origins as _Org
+    bad = []
+    n_sites = 0
+    for f in sorted(prog.fns.values(), key=lambda f: f.id):
+        if not f.body or "::tests::" in f.id:
             continue
-        for b in f.body["blocks"]:
+        org = None
+        for bi, b in enumerate(f.body["blocks"]):
             t = b["t"]
-            if t and t["k"] == "call" and t["f"].get("name") == "new_unmasked":
-                callers |= {prog.fns[o].path for o in prog.owners(f)}   # a helper new to the tree counts for the functions using it
-    rep.check(all("RawU24 as" in c and c.endswith("::load") for c in callers), "O0", "new_unmasked-callers", "new_unmasked (no masking) may only be used by RawU24::load, whose value is assembled from exactly three bytes; callers: %s" % sorted(callers))
+            if not (t and t["k"] == "call" and t["f"].get("name") == "new_unmasked"):
+                continue
+            n_sites += 1
+            owners = {prog.fns[o].path for o in prog.owners(f)}
+            if all("RawU24 as" in c and c.endswith("::load") for c in owners):
+                continue
+            rpath = (t["f"].get("resolved") or t["f"]).get("path", "")
+            rinfo = [i for r_, i in rawinfo.items() if rpath == r_ + "::new_unmasked"]
+            if len(rinfo) != 1 or f.kind == "closure":
+                bad.append("%s calls new_unmasked in a way the bit analysis cannot follow" % f.key())
+                continue
+            org = org or _Org(f)
+            arg = org.term_args(bi)[0]
+            ins = f.d.get("inputs") or [f.body["locals"][i + 1]["ty"] for i in range(f.body["argc"])]
+            env = {i + 1: be.input_of(ty_, "a%d" % i) for i, ty_ in enumerate(ins)}
+            v = be.eval(arg, env, f)
+            bpp = rinfo[0]["bpp"]
+            if not (isinstance(v, BV) and all(v.bit(j) == 0 for j in range(bpp, max(len(v.bits), v.width or 0)))):
+                bad.append("%s hands new_unmasked a value whose bits >= %d are not provably zero: %r" % (f.key(), bpp, v))
+    rep.check(not bad and n_sites >= 1, "O0", "new_unmasked-callers", "new_unmasked (no masking) may only receive values that are masked already: %s" % "; ".join(bad[:3]))
 
     for cty, rty in sorted(colours):
         name = cty.split("::")[-1]
@@ -218,19 +241,26 @@ def binary(prog, rep, be, cty, rty):
     if to_raw is None or from_raw is None:
         rep.fail("C12", "BinaryColor", "conversions not found", status="undecided")
         return
-    # from raw: On iff value != 0
+    # from raw: On iff value != 0 — on path summaries, the colour's own helpers (From<bool>, map_color ..) inlined
+    from mirq.paths import Paths, Unsupported, holds, violated, variant_of
     t = {}
-    for lits, ret, _ in decisions(from_raw):
-        r = strip_refs(ret)
-        v = r[1].split("::")[-1] if r[0] == "agg" else None
-        for d, lit in lits:
-            d = strip_refs(d)
-            tv = lit_truth(lit)
-            if d[0] == "bin" and d[1] in ("Ne", "Eq") and ("const", 0) in d[2:4]:
-                nz = tv if d[1] == "Ne" else (not tv)
-                t[nz] = v
-            elif d[0] == "call" and d[1].endswith("into_inner") and lit in ((0,), ("not", 0)):
-                t[lit != (0,)] = v
+    try:
+        for sm in Paths(prog, inline=lambda g: prog.is_new(g) or "BinaryColor" in g.path).of(from_raw):
+            vo = variant_of(sm.ret)
+            v = vo[1] if vo is not None else None
+            subj = [x for f_ in sm.facts for x in f_[1:] if isinstance(x, tuple) and ((x[0] == "call" and x[1].endswith("into_inner")) or (x[0] == "field" and strip_refs(x[1])[0] == "param"))]
+            if not subj:
+                t[None] = v
+                continue
+            goal = ("ne", subj[0], ("const", 0))
+            if holds(sm.facts, goal):
+                t[True] = v if t.get(True, v) == v else "?"
+            elif violated(sm.facts, goal):
+                t[False] = v if t.get(False, v) == v else "?"
+            else:
+                t[None] = v
+    except Unsupported as e:
+        t = {"?": str(e)}
     rep.check(t == {True: "On", False: "Off"}, "O2", "BinaryColor:from-raw", "From<RawU1> must map 0 to Off and 1 to On; found %s" % t, at=from_raw.span, fn=from_raw.path)
     # to raw: Off -> RawU1::new(0), On -> RawU1::new(1)
     ro = strip_refs(Origins(to_raw).return_origin())
